@@ -118,6 +118,296 @@ fn run_case(line: &str, base: u64) -> String {
     )
 }
 
+// ---------------------------------------------------------------------------------- stress engine
+// `STRESS <seed> <rounds> <per_pusher>`: free-running rounds on real threads (no scheduler callback):
+// 4-8 pushers of tagged values || 0-2 clearers || 1-2 snapshotters, then join + final clear_with.
+// Judged by the property; the only tolerated anomaly is what the open late-claim class explains:
+// a value handed to nobody is excused only if some concurrent clear_with call overlapped that push
+// in time (logical clock). Rounds with no concurrent clearer must account for every push, and
+// their snapshots must show every value whose push returned before the snapshot began.
+struct SVal {
+    tid: u32,
+    seq: u32,
+    guard: u64,
+    tbl: &'static [std::sync::atomic::AtomicU8],
+    per: u32,
+}
+static SDOUBLE: AtomicU64 = AtomicU64::new(0);
+impl Drop for SVal {
+    fn drop(&mut self) {
+        let i = (self.tid * self.per + self.seq) as usize;
+        if self.tbl[i].fetch_add(1, SeqCst) != 0 {
+            SDOUBLE.fetch_add(1, SeqCst);
+        }
+    }
+}
+fn sguard(tid: u32, seq: u32) -> u64 {
+    ((tid as u64) << 40) ^ ((seq as u64).wrapping_mul(0x9E37_79B9_7F4A_7C15)) ^ 0x5a5a_a5a5
+}
+struct Rng64(u64);
+impl Rng64 {
+    fn next(&mut self) -> u64 {
+        let mut x = self.0;
+        x ^= x >> 12;
+        x ^= x << 25;
+        x ^= x >> 27;
+        self.0 = x;
+        x.wrapping_mul(0x2545_F491_4F6C_DD1D)
+    }
+    fn below(&mut self, n: u64) -> u64 { self.next() % n }
+}
+
+#[derive(Default)]
+struct StressTotals {
+    rounds: u64,
+    pushes: u64,
+    clear_calls: u64,
+    snapshots: u64,
+    empties: u64,
+    lost_excused: u64,
+    violations: u64,
+    first: String,
+}
+impl StressTotals {
+    fn viol(&mut self, round: u64, what: String) {
+        self.violations += 1;
+        if self.first.is_empty() {
+            self.first = format!("round {}: {}", round, what);
+        }
+    }
+}
+
+fn stress_round(round: u64, rng: &mut Rng64, per: u32, tot: &mut StressTotals) {
+    use std::sync::atomic::{AtomicBool, AtomicU32, AtomicU8};
+    let np = 4 + rng.below(5) as u32; // 4..8 pushers
+    let per = if per == 0 { 64 + rng.below(400) as u32 } else { per };
+    let nc = match round % 3 { 0 => 0, 1 => 1, _ => 2 } as usize; // concurrent clearers
+    let ns = 1 + (rng.below(2) as usize);
+    let pause = 2000 + rng.below(30000); // spin iterations between two clears
+    let tbl: &'static [AtomicU8] = Box::leak((0..(np * per) as usize).map(|_| AtomicU8::new(0)).collect::<Vec<_>>().into_boxed_slice());
+    let bucket: AtomicBucket<SVal> = AtomicBucket::new();
+    let clock = AtomicU64::new(1);
+    let done: Vec<AtomicU32> = (0..np).map(|_| AtomicU32::new(0)).collect();
+    let pushers_left = AtomicU32::new(np);
+    let stop = AtomicBool::new(false);
+    // per push: (start, end) on the logical clock
+    let mut stamps: Vec<Vec<(u64, u64)>> = Vec::new();
+    // per concurrent clear call: (start, end), and what it was handed
+    let mut clear_iv: Vec<(u64, u64)> = Vec::new();
+    let mut cleared: Vec<u8> = vec![0; (np * per) as usize];
+    let mut problems: Vec<String> = Vec::new();
+    let check = |x: &SVal, probs: &mut Vec<String>| -> bool {
+        let ok = x.tid < np && x.seq < per && x.per == per && x.guard == sguard(x.tid, x.seq);
+        if !ok {
+            probs.push(format!("fabricated or torn value tid={} seq={} guard={:x}", x.tid, x.seq, x.guard));
+            return false;
+        }
+        if x.tbl[(x.tid * per + x.seq) as usize].load(SeqCst) != 0 {
+            probs.push(format!("value {}.{} handed out after its destructor ran", x.tid, x.seq));
+        }
+        true
+    };
+    std::thread::scope(|sc| {
+        let mut ph = Vec::new();
+        for t in 0..np {
+            let (bucket, clock, done, pushers_left) = (&bucket, &clock, &done, &pushers_left);
+            ph.push(sc.spawn(move || {
+                let mut st = Vec::with_capacity(per as usize);
+                for q in 0..per {
+                    let a = clock.fetch_add(1, SeqCst);
+                    bucket.push(SVal { tid: t, seq: q, guard: sguard(t, q), tbl, per });
+                    let b = clock.fetch_add(1, SeqCst);
+                    done[t as usize].store(q + 1, SeqCst);
+                    st.push((a, b));
+                }
+                pushers_left.fetch_sub(1, SeqCst);
+                st
+            }));
+        }
+        let mut ch = Vec::new();
+        for _ in 0..nc {
+            let (bucket, clock, pushers_left, check) = (&bucket, &clock, &pushers_left, &check);
+            ch.push(sc.spawn(move || {
+                let mut ivs = Vec::new();
+                let mut got: Vec<(u32, u32)> = Vec::new();
+                let mut probs = Vec::new();
+                while pushers_left.load(SeqCst) != 0 {
+                    let a = clock.fetch_add(1, SeqCst);
+                    bucket.clear_with(|xs| {
+                        let mut last: [i64; 8] = [-1; 8];
+                        for x in xs {
+                            if check(x, &mut probs) {
+                                if (x.seq as i64) <= last[x.tid as usize] {
+                                    probs.push(format!("clear slice out of claim order at {}.{}", x.tid, x.seq));
+                                }
+                                last[x.tid as usize] = x.seq as i64;
+                                got.push((x.tid, x.seq));
+                            }
+                        }
+                    });
+                    let b = clock.fetch_add(1, SeqCst);
+                    ivs.push((a, b));
+                    for _ in 0..pause {
+                        std::hint::spin_loop();
+                    }
+                }
+                (ivs, got, probs)
+            }));
+        }
+        let mut sh = Vec::new();
+        for _ in 0..ns {
+            let (bucket, done, stop, check) = (&bucket, &done, &stop, &check);
+            sh.push(sc.spawn(move || {
+                let mut probs = Vec::new();
+                let mut n = 0u64;
+                let mut seen: Vec<u32> = vec![0; (np * per) as usize]; // snapshot number that last saw the value
+                while !stop.load(SeqCst) {
+                    n += 1;
+                    let before: Vec<u32> = done.iter().map(|d| d.load(SeqCst)).collect();
+                    let tag = n as u32;
+                    bucket.data_with(|xs| {
+                        let mut last: [i64; 8] = [-1; 8];
+                        for x in xs {
+                            if check(x, &mut probs) {
+                                let i = (x.tid * per + x.seq) as usize;
+                                if seen[i] == tag {
+                                    probs.push(format!("snapshot shows {}.{} twice", x.tid, x.seq));
+                                }
+                                seen[i] = tag;
+                                if (x.seq as i64) <= last[x.tid as usize] {
+                                    probs.push(format!("snapshot slice out of claim order at {}.{}", x.tid, x.seq));
+                                }
+                                last[x.tid as usize] = x.seq as i64;
+                            }
+                        }
+                    });
+                    if nc == 0 {
+                        // nobody clears: every push that returned before the snapshot began must be shown
+                        let mut missing = 0u64;
+                        let mut firstm = None;
+                        for t in 0..np {
+                            for q in 0..before[t as usize] {
+                                if seen[(t * per + q) as usize] != tag {
+                                    missing += 1;
+                                    if firstm.is_none() { firstm = Some((t, q)); }
+                                }
+                            }
+                        }
+                        if missing != 0 {
+                            probs.push(format!("snapshot misses {} completed pushes (first {:?}), no clear_with running", missing, firstm.unwrap()));
+                        }
+                    }
+                }
+                (n, probs)
+            }));
+        }
+        // is_empty prober (only when nobody clears): once a push has returned, is_empty must say false
+        let mut eh = Vec::new();
+        if nc == 0 {
+            let (bucket, done, stop) = (&bucket, &done, &stop);
+            eh.push(sc.spawn(move || {
+                let mut probs = Vec::new();
+                let mut n = 0u64;
+                while !stop.load(SeqCst) {
+                    let any = done.iter().any(|d| d.load(SeqCst) != 0);
+                    let e = bucket.is_empty();
+                    n += 1;
+                    if e && any && probs.len() < 5 {
+                        probs.push("is_empty returned true after a push had returned, no clear_with running".to_string());
+                    }
+                }
+                (n, probs)
+            }));
+        }
+        for h in ph { stamps.push(h.join().unwrap()); }
+        for h in ch {
+            let (ivs, got, probs) = h.join().unwrap();
+            clear_iv.extend(ivs);
+            for (t, q) in got { cleared[(t * per + q) as usize] += 1; }
+            problems.extend(probs);
+        }
+        stop.store(true, SeqCst);
+        for h in sh {
+            let (n, probs) = h.join().unwrap();
+            tot.snapshots += n;
+            problems.extend(probs);
+        }
+        for h in eh {
+            let (n, probs) = h.join().unwrap();
+            tot.empties += n;
+            problems.extend(probs);
+        }
+    });
+    // final sequential clear
+    let mut probs = Vec::new();
+    bucket.clear_with(|xs| {
+        for x in xs {
+            if check(x, &mut probs) {
+                cleared[(x.tid * per + x.seq) as usize] += 1;
+            }
+        }
+    });
+    problems.extend(probs);
+    if !bucket.is_empty() {
+        problems.push("bucket not empty after the final clear_with".to_string());
+    }
+    // accounting
+    let mut lost_unexcused = 0u64;
+    let mut first_lost = None;
+    for t in 0..np {
+        for q in 0..per {
+            let c = cleared[(t * per + q) as usize];
+            if c > 1 {
+                problems.push(format!("value {}.{} handed to clearing reads {} times", t, q, c));
+            } else if c == 0 {
+                let (a, b) = stamps[t as usize][q as usize];
+                let excused = clear_iv.iter().any(|&(ca, cb)| ca < b && a < cb);
+                if excused {
+                    tot.lost_excused += 1;
+                } else {
+                    lost_unexcused += 1;
+                    if first_lost.is_none() { first_lost = Some((t, q)); }
+                }
+            }
+        }
+    }
+    if lost_unexcused != 0 {
+        problems.push(format!("{} pushed values handed to nobody with no clear_with overlapping their push (first {:?}); {} concurrent clearers", lost_unexcused, first_lost.unwrap(), nc));
+    }
+    tot.rounds += 1;
+    tot.pushes += (np * per) as u64;
+    tot.clear_calls += clear_iv.len() as u64;
+    problems.truncate(50);
+    for p in problems {
+        tot.viol(round, p);
+    }
+}
+
+fn stress(line: &str) -> String {
+    let f: Vec<u64> = line.split_whitespace().skip(1).map(|x| x.parse().unwrap()).collect();
+    let (seed, rounds, per) = (f[0], f[1], f[2] as u32);
+    metrics::__verif::set_callback(None);
+    let mut rng = Rng64(seed.wrapping_mul(0x9E37_79B9_7F4A_7C15) | 1);
+    let mut tot = StressTotals::default();
+    let d0 = SDOUBLE.load(SeqCst);
+    for r in 0..rounds {
+        let before = tot.violations;
+        let res = std::panic::catch_unwind(std::panic::AssertUnwindSafe(|| stress_round(r, &mut rng, per, &mut tot)));
+        if res.is_err() && tot.violations == before {
+            tot.viol(r, "panic in a stress round".to_string());
+        }
+    }
+    let dd = SDOUBLE.load(SeqCst) - d0;
+    if dd != 0 {
+        tot.viol(rounds, format!("{} values dropped twice", dd));
+    }
+    format!(
+        "stress rounds={} pushes={} handovers={} clear_calls={} snapshots={} is_empty_calls={} lost_excused_by_concurrent_clear={} violations={} first={}",
+        tot.rounds, tot.pushes, tot.pushes / 64, tot.clear_calls, tot.snapshots, tot.empties, tot.lost_excused, tot.violations,
+        if tot.first.is_empty() { "-" } else { &tot.first }
+    )
+}
+
 fn main() {
     let stdin = std::io::stdin();
     let stdout = std::io::stdout();
@@ -126,6 +416,10 @@ fn main() {
     for line in stdin.lock().lines() {
         let line = line.unwrap();
         if line.trim().is_empty() {
+            continue;
+        }
+        if line.starts_with("STRESS") {
+            writeln!(w, "{}", stress(&line)).unwrap();
             continue;
         }
         let l2 = line.clone();
